@@ -89,7 +89,8 @@ Safe == {"refused", "helper", "builtin4", "ctor", "read"}
 \* syntactic context the call is nested in (the decision must not depend on it)
 Contexts == {"bare", "arg", "operand", "listelt", "genelt", "geniter", "gencond", "kwarg", "not", "boolop",
              "add_list", "mult", "bitor",       \* the value is the LEFT operand of an operator (must never be modified in place)
-             "helper_strings", "helper_fields"} \* the value is handed to a whitelisted helper as its list of strings / of field names
+             "helper_strings", "helper_fields", \* the value is handed to a whitelisted helper as its list of strings / of field names
+             "primed"}                          \* genuine whitelisted calls of the same names were made earlier in the same expression
 VARIABLES t, g, ctx
 Init == t \in Targets /\ g \in InGen /\ ctx \in Contexts
 Next == UNCHANGED <<t, g, ctx>>
